@@ -161,7 +161,8 @@ Inductive output :=
 | OStart (up : bool)       (* a session was created and handleZmodemEvent started *)
 | OArm (t : timer) | OStopT (t : timer)
 | OKill                    (* ensureClientExit: kill the helper after zmodem_kill_delay_ms *)
-| OLaunchHelper.           (* a local rz / sz process was started *)
+| OLaunchHelper            (* a local rz / sz process was started *)
+| OCrash.                  (* nil dereference in a goroutine without recover: the whole client process dies *)
 
 Definition res := (zstate * list output)%type.
 Definition andthen (r : res) (f : zstate -> res) : res :=
@@ -300,6 +301,20 @@ Definition step_gen (fixed : bool) (f : fstate) (e : event) : fres :=
   end.
 
 Definition step := step_gen true.
+
+(* The session becomes visible to sendInput (filter.zmodem) BEFORE the goroutine
+   handleZmodemEvent has stored the writers it uses.  [step] describes the code with
+   hooks/fix_zmodem_early_ctrl_c.diff (the writers are stored before the pointer is
+   published).  In the code as pinned, a lone Ctrl-C typed in that window reaches
+   handleZmodemError with serverIn == nil: *)
+Definition crash_window (f : fstate) (buf : list N) : bool :=
+  ptr f && list_eqb buf [Consts.zmodem_ctrl_c] && negb (stopped (zs f)) && negb (gbegun (zs f)).
+
+Definition step_pinned (f : fstate) (e : event) : fres :=
+  match e with
+  | EvInput buf => if crash_window f buf then (f, [OCrash]) else step f e
+  | _ => step f e
+  end.
 Definition step_unfixed := step_gen false.
 
 Fixpoint run_gen (fixed : bool) (f : fstate) (evs : list event) : fres :=
@@ -308,6 +323,11 @@ Fixpoint run_gen (fixed : bool) (f : fstate) (evs : list event) : fres :=
   | e :: r => let (f1, o1) := step_gen fixed f e in let (f2, o2) := run_gen fixed f1 r in (f2, o1 ++ o2)
   end.
 Definition run := run_gen true.
+Fixpoint run_pinned (f : fstate) (evs : list event) : fres :=
+  match evs with
+  | [] => (f, [])
+  | e :: r => let (f1, o1) := step_pinned f e in let (f2, o2) := run_pinned f1 r in (f2, o1 ++ o2)
+  end.
 Definition run_unfixed := run_gen false.
 
 (* ---- timed wrapper, used only by the correspondence check ----
